@@ -60,3 +60,31 @@ def local_sources(fnode, name):
         elif isinstance(n, (ast.AugAssign, ast.AnnAssign)) and isinstance(n.target, ast.Name) and n.target.id == name:
             out.append(n)
     return out
+
+
+def field_aliases(prog, cls):
+    """{field: representative} for instance fields that __init__ binds to the same value (`self._element = self._p = p`): the
+    representative is the alphabetically first of each group."""
+    import ast as _ast
+
+    init = prog.lookup(cls, "__init__")
+    if init is None:
+        return {}
+    groups = {}
+    for n in _ast.walk(init.node):
+        if isinstance(n, _ast.Assign):
+            flds = [t.attr for t in n.targets if isinstance(t, _ast.Attribute) and isinstance(t.value, _ast.Name) and t.value.id == "self"]
+            if not flds:
+                continue
+            key = _ast.unparse(n.value)
+            if isinstance(n.value, _ast.Attribute) and isinstance(n.value.value, _ast.Name) and n.value.value.id == "self":
+                key = "self." + n.value.attr  # self._p = self._element
+                flds.append(n.value.attr)
+            groups.setdefault(key, set()).update(flds)
+    out = {}
+    for g in groups.values():
+        if len(g) > 1:
+            rep = sorted(g)[0]
+            for x in g:
+                out[x] = rep
+    return out
